@@ -103,20 +103,21 @@ theorem cleanup_wtok (G : JsonG) (s : List Char) (fc fch : Bool) :
     cleanup G.cl (G.wtok s) fc fch = .ok ((G.word, true, .str s), fch) := by
   simp [JsonG.wtok, cleanup, G.tpl_word]
 
-theorem cleanup_vnode (G : JsonG) (x : Val) (r : El × Bool) (h : cleanup G.cl x false true = .ok r) :
-    cleanup G.cl (G.vnode x) true false = .ok r := by
+theorem cleanup_vnode (G : JsonG) (x : Val) (r : El × Bool) (fc : Bool) (h : cleanup G.cl x false true = .ok r)
+    (hr : r.2 = true) : cleanup G.cl (G.vnode x) fc false = .ok r := by
   have h1 : decide (G.value ∈ G.cl.choice) = true := by simp [G.choice_value]
   have h2 : decide (G.value ∈ G.cl.keep) = false := by simp [G.keep_value]
   simp only [JsonG.vnode, cleanup, G.tpl_value, cleanupAll, h1, h, bind, Except.bind, pure, Except.pure, squashStep,
-    G.squash_value, if_true, h2, Bool.false_or, Bool.false_and, Bool.or_true]
+    G.squash_value, if_true, h2, Bool.false_or, Bool.false_and, hr, Bool.true_or]
   simp
+  cases r; simp_all
 
 theorem cleanItem_of_cleanup {cl : Cleanuper} {t : Val} {r : El × Bool} (h : cleanup cl t true false = .ok r) :
     cleanItem cl t = .ok r.1 := by
   simp [cleanItem, h]
 
 theorem denAll_clean (G : JsonG) (n : Nat)
-    (ih : ∀ t d, Den G n t d → ∃ r, cleanup G.cl t true false = .ok r ∧ entry r.1 = pyval d) :
+    (ih : ∀ t d, Den G n t d → ∃ r, cleanup G.cl t true false = .ok r ∧ entry r.1 = pyval d ∧ r.2 = true) :
     ∀ items ds, DenAll (Den G n) items ds →
       ∃ es, cleanItems G.cl items = .ok es ∧ es.map entry = pyvals ds := by
   intro items
@@ -132,14 +133,14 @@ theorem denAll_clean (G : JsonG) (n : Nat)
     | nil => simp [DenAll] at h
     | cons d ds =>
       simp only [DenAll] at h
-      obtain ⟨r, hr, he⟩ := ih i d h.1
+      obtain ⟨r, hr, he, _⟩ := ih i d h.1
       obtain ⟨es, hes, hm⟩ := ihl ds h.2
       refine ⟨r.1 :: es, ?_, ?_⟩
       · simp [cleanItems, cleanItem_of_cleanup hr, hes]
       · simp [pyvals, he, hm]
 
 theorem denPairs_clean (G : JsonG) (n : Nat)
-    (ih : ∀ t d, Den G n t d → ∃ r, cleanup G.cl t true false = .ok r ∧ entry r.1 = pyval d) :
+    (ih : ∀ t d, Den G n t d → ∃ r, cleanup G.cl t true false = .ok r ∧ entry r.1 = pyval d ∧ r.2 = true) :
     ∀ pairs kvs, DenPairs G (Den G n) pairs kvs →
       cleanPairs G.cl pairs = .ok ((pykvs kvs).map fun p => (Val.str p.1, p.2)) := by
   intro pairs
@@ -158,34 +159,77 @@ theorem denPairs_clean (G : JsonG) (n : Nat)
       obtain ⟨s, d⟩ := kd
       simp only [DenPairs] at h
       obtain ⟨rfl, hw, hps⟩ := h
-      obtain ⟨r, hr, he⟩ := ih w d hw
+      obtain ⟨r, hr, he, _⟩ := ih w d hw
       have hk : cleanItem G.cl (G.wtok s) = .ok (G.word, true, .str s) := by
         simp [cleanItem, cleanup_wtok]
       have hks : entry (G.word, true, Val.str s) = Val.str s := by simp [entry]
       simp only [cleanPairs, cleanPair, hk, cleanItem_of_cleanup hr, ihl kvs hps, pykvs, he, hks, List.map_cons]
 
-/-- **Nesting.** The clean-up (as a container item) of a raw tree that denotes `d` is an element whose entry in the
-enclosing container is exactly the Python value of `d` — for every depth `n`. -/
-theorem den_clean (G : JsonG) : ∀ n t d, Den G n t d →
-    ∃ r, cleanup G.cl t true false = .ok r ∧ entry r.1 = pyval d := by
+/-- **Nesting.** The clean-up of a raw tree that denotes `d` (as a container item or not: `fc` arbitrary) is an element
+whose entry in the enclosing container is exactly the Python value of `d` — for every depth `n`; the element must not
+be squashed further (`r.2`). -/
+theorem den_clean_fc (G : JsonG) : ∀ n t d, Den G n t d → ∀ fc,
+    ∃ r, cleanup G.cl t fc false = .ok r ∧ entry r.1 = pyval d ∧ r.2 = true := by
   intro n
   induction n with
   | zero => intro t d h; simp [Den] at h
   | succ n ih =>
-    intro t d h
+    intro t d h fc
     simp only [Den] at h
     rcases h with ⟨s, rfl, rfl⟩ | ⟨lt, items, fin, ds, rfl, hs, rfl, hall⟩ | ⟨mt, pairs, fin, kvs, rfl, hs, rfl, hall⟩
-    · exact ⟨_, cleanup_vnode G _ _ (cleanup_wtok G s false true), by simp [entry, pyval]⟩
-    · obtain ⟨es, hes, hm⟩ := denAll_clean G n ih items ds hall
+    · exact ⟨_, cleanup_vnode G _ _ fc (cleanup_wtok G s false true) rfl, by simp [entry, pyval], rfl⟩
+    · obtain ⟨es, hes, hm⟩ := denAll_clean G n (fun t d h => ih t d h true) items ds hall
       have hc := cleanup_list G.cl G.lo G.lwf G.tpl_list hs false true
       simp only [listResult, hes] at hc
-      refine ⟨_, cleanup_vnode G _ _ hc, ?_⟩
+      refine ⟨_, cleanup_vnode G _ _ fc hc rfl, ?_, rfl⟩
       simp [entry, pyval, hm, adjust_pyvals]
-    · have hp := denPairs_clean G n ih pairs kvs hall
+    · have hp := denPairs_clean G n (fun t d h => ih t d h true) pairs kvs hall
       have hc := cleanup_map G.cl G.mo G.mwf G.tpl_map hs false true
       simp only [mapResult, hp, pyDict_str] at hc
-      refine ⟨_, cleanup_vnode G _ _ hc, ?_⟩
+      refine ⟨_, cleanup_vnode G _ _ fc hc rfl, ?_, rfl⟩
       simp [entry, pyval]
+
+theorem den_clean (G : JsonG) (n : Nat) (t : Val) (d : Data) (h : Den G n t d) :
+    ∃ r, cleanup G.cl t true false = .ok r ∧ entry r.1 = pyval d := by
+  obtain ⟨r, h1, h2, _⟩ := den_clean_fc G n t d h true
+  exact ⟨r, h1, h2⟩
+
+theorem Den_mono (G : JsonG) : ∀ n m t d, n ≤ m → Den G n t d → Den G m t d := by
+  intro n
+  induction n with
+  | zero => intro m t d _ h; simp [Den] at h
+  | succ n ih =>
+    intro m t d hm h
+    cases m with
+    | zero => omega
+    | succ m =>
+      have hnm : n ≤ m := by omega
+      have hall : ∀ items ds, DenAll (Den G n) items ds → DenAll (Den G m) items ds := by
+        intro items
+        induction items with
+        | nil => intro ds h; cases ds <;> simp_all [DenAll]
+        | cons i is ihl =>
+          intro ds h
+          cases ds with
+          | nil => simp [DenAll] at h
+          | cons d ds => exact ⟨ih m i d hnm h.1, ihl ds h.2⟩
+      have hpairs : ∀ ps kvs, DenPairs G (Den G n) ps kvs → DenPairs G (Den G m) ps kvs := by
+        intro ps
+        induction ps with
+        | nil => intro kvs h; cases kvs <;> simp_all [DenPairs]
+        | cons p ps ihl =>
+          intro kvs h
+          obtain ⟨k, w⟩ := p
+          cases kvs with
+          | nil => simp [DenPairs] at h
+          | cons kd kvs =>
+            obtain ⟨s, d⟩ := kd
+            exact ⟨h.1, ih m w d hnm h.2.1, ihl kvs h.2.2⟩
+      simp only [Den] at h ⊢
+      rcases h with h | ⟨lt, items, fin, ds, e1, hs, e2, hd⟩ | ⟨mt, pairs, fin, kvs, e1, hs, e2, hd⟩
+      · exact Or.inl h
+      · exact Or.inr (Or.inl ⟨lt, items, fin, ds, e1, hs, e2, hall items ds hd⟩)
+      · exact Or.inr (Or.inr ⟨mt, pairs, fin, kvs, e1, hs, e2, hpairs pairs kvs hd⟩)
 
 /-- a squashable symbol that is not kept disappears around a container item: cleaning `name[x]` as a container item
 is cleaning `x` (as the child of `name`) -/
